@@ -668,15 +668,33 @@ def m_parse_f64(it, s):
 def m_from_u32(it, v):
     ok = zand(v >= 0, v <= 0x10FFFF, znot(zand(v >= 0xD800, v <= 0xDFFF)))
     return SOME(v) if B(it, ok) else NONE()
-@model(r'std::char::methods::<impl char>::(is_ascii_digit|is_numeric)')
+@model(r'std::char::methods::<impl char>::(is_ascii_digit)')
 def m_is_digit(it, c):
     c = deref_all(c)
     return zand(c >= 48, c <= 57)
 @model(r'std::char::methods::<impl char>::is_ascii_alphabetic')
 def m_is_alpha(it, c):
     c = deref_all(c); return zor(zand(c >= 65, c <= 90), zand(c >= 97, c <= 122))
-@model(r'std::char::methods::<impl char>::is_whitespace')
-def m_is_ws(it, c): return is_ws(deref_all(c))
+_TABLES = {}
+def char_table(name):
+    """ranges of the std predicate `char::is_<name>`, dumped from the toolchain's own tables by the native binary"""
+    if name not in _TABLES:
+        import json, os
+        from . import native
+        path = os.path.join(native.CACHE, 'chartable-%s.json' % name)
+        if not os.path.exists(path):
+            r = native.run_cases([['chartable', name]], timeout_each=60)[0]
+            if r[0] != 'ok': raise Unsupported('char table ' + name)
+            json.dump([[int(x) for x in t.split('-')] for t in r[1]], open(path, 'w'))
+        _TABLES[name] = json.load(open(path))
+    return _TABLES[name]
+def char_pred(it, name, c):
+    tab = char_table(name)
+    if isinstance(c, int): return any(lo <= c <= hi for lo, hi in tab)
+    return z3.Or(*[(c == lo) if lo == hi else z3.And(c >= lo, c <= hi) for lo, hi in tab])
+@model(r'std::char::methods::<impl char>::is_(alphanumeric|alphabetic|numeric|uppercase|lowercase|control|whitespace)', True)
+def m_char_pred(it, callee, c):
+    return char_pred(it, callee.rsplit('is_', 1)[1], deref_all(c))
 @model(r'std::char::methods::<impl char>::to_digit')
 def m_to_digit(it, c, radix):
     if radix != 10: raise Unsupported('to_digit radix')
